@@ -4956,7 +4956,15 @@ impl PeerConnectionInner {
                 }
             }
 
-            self.populate_media_capabilities(&mut section, transceiver.kind(), sdp_type);
+            // Answer sections are built in the order of the remote offer, so the
+            // position identifies the offered section even when it has no a=mid.
+            let remote_index = (sdp_type == SdpType::Answer).then_some(media_index);
+            self.populate_media_capabilities(
+                &mut section,
+                transceiver.kind(),
+                sdp_type,
+                remote_index,
+            );
             if sdp_type == SdpType::Answer && !remote_offered_rtcp_mux {
                 section.attributes.retain(|attr| attr.key != "rtcp-mux");
             }
@@ -5193,9 +5201,12 @@ impl PeerConnectionInner {
         section: &mut MediaSection,
         kind: MediaKind,
         sdp_type: SdpType,
+        remote_index: Option<usize>,
     ) {
         section.apply_config(&self.config);
-        if let Some(caps) = self.reinvite_answer_audio_capabilities(&section.mid, kind, sdp_type) {
+        if let Some(caps) =
+            self.reinvite_answer_audio_capabilities(&section.mid, remote_index, kind, sdp_type)
+        {
             Self::apply_audio_capabilities(section, &caps);
         }
 
@@ -5203,15 +5214,16 @@ impl PeerConnectionInner {
         // echo only RTX from the remote offer when apt= maps to an answered primary PT.
         if sdp_type == SdpType::Answer && kind == MediaKind::Video {
             strip_rtx_from_section(section);
-            self.merge_remote_rtx_into_answer(section);
+            self.merge_remote_rtx_into_answer(section, remote_index);
         }
 
         // Browsers reject descriptions with duplicate extension ids.
-        let mut used_extmap_ids = self.get_remote_extmap_ids(&section.mid);
+        let mut used_extmap_ids = self.get_remote_extmap_ids(&section.mid, remote_index);
 
         // Add extmap for Video
         if kind == MediaKind::Video {
-            let (mut rid_id, mut repaired_rid_id) = self.get_remote_video_extmap_ids(&section.mid);
+            let (mut rid_id, mut repaired_rid_id) =
+                self.get_remote_video_extmap_ids(&section.mid, remote_index);
 
             if sdp_type == SdpType::Offer && self.config.transport_mode != TransportMode::Rtp {
                 // If not found in remote (new transceiver), use defaults
@@ -5228,7 +5240,7 @@ impl PeerConnectionInner {
 
         // Add abs-send-time extmap
         let mut abs_send_time_id =
-            self.get_remote_extmap_id(&section.mid, crate::sdp::ABS_SEND_TIME_URI);
+            self.get_remote_extmap_id(&section.mid, remote_index, crate::sdp::ABS_SEND_TIME_URI);
         if sdp_type == SdpType::Offer
             && abs_send_time_id.is_none()
             && self.config.transport_mode != TransportMode::Rtp
@@ -5246,7 +5258,8 @@ impl PeerConnectionInner {
         // remote ID when offered; WebRTC offers use a default ID so bundled
         // audio/video can still be demuxed when payload types overlap.
         if self.config.sdp_compatibility != crate::config::SdpCompatibilityMode::LegacySip {
-            let mut sdes_mid_id = self.get_remote_extmap_id(&section.mid, crate::sdp::SDES_MID_URI);
+            let mut sdes_mid_id =
+                self.get_remote_extmap_id(&section.mid, remote_index, crate::sdp::SDES_MID_URI);
             if sdp_type == SdpType::Offer
                 && sdes_mid_id.is_none()
                 && self.config.transport_mode != TransportMode::Rtp
@@ -5302,9 +5315,25 @@ impl PeerConnectionInner {
             .unwrap_or_else(|| vec![default_caps])
     }
 
+    /// The remote m-section that a local section under construction corresponds
+    /// to: by position when it is known (answers), otherwise by mid. A mid lookup
+    /// alone is ambiguous for peers that omit a=mid, because every such section
+    /// carries the empty mid and the first one would always win.
+    fn remote_section_for<'a>(
+        desc: &'a SessionDescription,
+        mid: &str,
+        remote_index: Option<usize>,
+    ) -> Option<&'a MediaSection> {
+        match remote_index {
+            Some(index) => desc.media_sections.get(index),
+            None => desc.media_sections.iter().find(|s| s.mid == mid),
+        }
+    }
+
     fn reinvite_answer_audio_capabilities(
         &self,
         mid: &str,
+        remote_index: Option<usize>,
         kind: MediaKind,
         sdp_type: SdpType,
     ) -> Option<Vec<AudioCapability>> {
@@ -5318,7 +5347,12 @@ impl PeerConnectionInner {
 
         let remote = self.remote_description.lock();
         let remote_desc = remote.as_ref()?;
-        let remote_section = if mid.is_empty() {
+        let remote_section = if let Some(index) = remote_index {
+            remote_desc
+                .media_sections
+                .get(index)
+                .filter(|section| section.kind == kind)
+        } else if mid.is_empty() {
             remote_desc
                 .media_sections
                 .iter()
@@ -5403,15 +5437,12 @@ impl PeerConnectionInner {
 
     /// Echo remote-offered RTX payload types into a local answer when the
     /// associated primary PT is present in the answer media section.
-    fn merge_remote_rtx_into_answer(&self, section: &mut MediaSection) {
+    fn merge_remote_rtx_into_answer(&self, section: &mut MediaSection, remote_index: Option<usize>) {
         let remote = self.remote_description.lock();
         let Some(desc) = remote.as_ref() else {
             return;
         };
-        let Some(remote_section) = desc
-            .media_sections
-            .iter()
-            .find(|s| s.mid == section.mid)
+        let Some(remote_section) = Self::remote_section_for(desc, &section.mid, remote_index)
             .or_else(|| {
                 desc.media_sections
                     .iter()
@@ -5452,20 +5483,33 @@ impl PeerConnectionInner {
         }
     }
 
-    fn get_remote_video_extmap_ids(&self, mid: &str) -> (Option<String>, Option<String>) {
-        let rid_id =
-            self.get_remote_extmap_id(mid, "urn:ietf:params:rtp-hdrext:sdes:rtp-stream-id");
+    fn get_remote_video_extmap_ids(
+        &self,
+        mid: &str,
+        remote_index: Option<usize>,
+    ) -> (Option<String>, Option<String>) {
+        let rid_id = self.get_remote_extmap_id(
+            mid,
+            remote_index,
+            "urn:ietf:params:rtp-hdrext:sdes:rtp-stream-id",
+        );
         let repaired_rid_id = self.get_remote_extmap_id(
             mid,
+            remote_index,
             "urn:ietf:params:rtp-hdrext:sdes:repaired-rtp-stream-id",
         );
         (rid_id, repaired_rid_id)
     }
 
-    fn get_remote_extmap_id(&self, mid: &str, uri: &str) -> Option<String> {
+    fn get_remote_extmap_id(
+        &self,
+        mid: &str,
+        remote_index: Option<usize>,
+        uri: &str,
+    ) -> Option<String> {
         let remote = self.remote_description.lock();
         if let Some(desc) = &*remote {
-            let remote_section = desc.media_sections.iter().find(|s| s.mid == mid)?;
+            let remote_section = Self::remote_section_for(desc, mid, remote_index)?;
             for attr in &remote_section.attributes {
                 if attr.key != "extmap" {
                     continue;
@@ -5482,11 +5526,15 @@ impl PeerConnectionInner {
     }
 
     /// All extension ids the remote has mapped on the given m-line.
-    fn get_remote_extmap_ids(&self, mid: &str) -> std::collections::HashSet<u8> {
+    fn get_remote_extmap_ids(
+        &self,
+        mid: &str,
+        remote_index: Option<usize>,
+    ) -> std::collections::HashSet<u8> {
         let mut ids = std::collections::HashSet::new();
         let remote = self.remote_description.lock();
         if let Some(desc) = &*remote
-            && let Some(remote_section) = desc.media_sections.iter().find(|s| s.mid == mid)
+            && let Some(remote_section) = Self::remote_section_for(desc, mid, remote_index)
         {
             for attr in &remote_section.attributes {
                 if attr.key == "extmap"
